@@ -345,3 +345,79 @@ class Unary(Contract):
         st = obs['status']
         out['flags'] = And(Iff(B(st['overflow']), Or(*[e > hi for e in exs])), Iff(B(st['underflow']), Or(*[e < lo for e in exs])))
         return out
+
+
+# ==========================================================================================================
+def f7_safe(op, x, y):
+    """format pairs on which the raw add/sub/mul paths are free of the open finding F7 (int64 wrap-around of
+    an aligned operand or of the result, int64/uint64 -> float64 promotion, a NumPy integer scalar meeting a
+    Python int >= 2^63, a Python-int scale factor >= 2^63)"""
+    (sx, wx, fx), (sy, wy, fy) = x, y
+    S, W, F = fmt_policy('optimal', op, x, y)
+    objx, objy = wx >= 64, wy >= 64
+    if op == 'mul':
+        if wx + wy >= 64:
+            return True          # raw_cast: both operands become Python ints
+        return (sx == sy) or W <= 53
+    if F >= 64:
+        return True              # precision_cast: scale factors are object arrays -> Python-int arithmetic
+    if objx and objy:
+        return True
+    if objx != objy:
+        return False             # NumPy int64 scalar combined with a Python int beyond int64
+    kx, ky = F - fx, F - fy
+    if max(kx, ky) > 62:
+        return False
+    if sx != sy:
+        return W <= 53           # int64 with uint64 promotes to float64
+    # magnitudes of the aligned operands
+    mx = (1 << (wx - 1 + kx)) if sx else (1 << (wx + kx))
+    my = (1 << (wy - 1 + ky)) if sy else (1 << (wy + ky))
+    if sx:
+        return mx <= 2**63 and my <= 2**63 and mx + my <= 2**63
+    if op == 'sub':
+        # a negative unsigned difference wraps in uint64 and is only re-interpreted as negative (then saturated
+        # to 0 with underflow) when the result is stored through the int64 path, i.e. for result words < 64
+        return W <= 63 and mx <= 2**63 and my <= 2**63
+    return mx <= 2**64 and my <= 2**64 and mx + my <= 2**64
+
+
+@contract
+class ArithWide(ArithOptimal):
+    """C19: add, subtract, multiply with optimal sizing stay exact when the exact result needs more than 53 or
+    more than 64 bits (operand words 2..70, results up to 256 bits, any signedness mix)."""
+    name = 'functions:add/sub/mul[optimal, wide]'
+    props = {'format': ['C19'], 'exact': ['C19', 'C07'], 'no_flags': ['C19'], 'unsigned_negative': ['C19'], 'in_range': ['C19', 'C02'],
+             'shape': ['C19'], 'no_exception': ['C19']}
+    primary = ['C19']
+
+    def configs(self, tier):
+        words = (8, 32, 53, 60, 63, 64, 70) if tier == 'quick' else (2, 8, 31, 32, 33, 52, 53, 54, 60, 62, 63, 64, 65, 70)
+        fm = []
+        for s in (True, False):
+            for n in words:
+                for f in sorted({0, n // 2, n}):
+                    fm.append((s, n, f))
+        from fxpv.harness import open_findings
+        skip_unsafe = 'F7' in open_findings()
+        k = 0
+        for x in fm:
+            for y in fm:
+                for op in ('add', 'sub', 'mul'):
+                    S, W, F = fmt_policy('optimal', op, x, y)
+                    if W <= 53 or W > 256:
+                        continue
+                    k += 1
+                    if tier == 'quick' and k % 3:
+                        continue
+                    if skip_unsafe and not f7_safe(op, x, y):
+                        continue
+                    yield dict(op=op, x=list(x), y=list(y), method='raw', shx=[], shy=[])
+
+    def post(self, cfg, inp, obs):
+        out = ArithOptimal.post(self, cfg, inp, obs)
+        # upper / lower are doubles and the inaccuracy test compares through doubles: both are exact only for
+        # words <= 53 bits (C07's domain); C19 is about the codes
+        for k in ('meta', 'inaccuracy_propagates', 'config_inherited', 'operands_unchanged', 'separate_state'):
+            out.pop(k, None)
+        return out
